@@ -1,7 +1,7 @@
 (* C03/Properties.v - the property theorems of C03, and nothing else.
    Every theorem is closed by [exact <lemma>] and followed by Print Assumptions. *)
 From Coq Require Import ZArith List Bool Ascii.
-From Morfuse Require Import C03.Ast C03.Codec C03.Generated C03.Sem C03.ProofsCodec C03.ProofsGen.
+From Morfuse Require Import C03.Ast C03.Codec C03.Generated C03.Sem C03.Compile C03.ProofsCodec C03.ProofsGen C03.ProofsSem C03.ProofsCompile.
 Import ListNotations.
 Local Open Scope Z_scope.
 
@@ -47,6 +47,58 @@ Theorem C03_generated_tables_are_wellformed :
   path_wf lex_bits gram_bits emit_bits arg_bits = true.
 Proof. exact (conj generated_codec_wf (conj generated_fold_wf generated_path_wf)). Qed.
 Print Assumptions C03_generated_tables_are_wellformed.
+
+(* Integer case labels keep their value (and their negation for `case -v:`) on the way from
+   the parse tree to the label text: the member read, the cast, EmitCaseLabel's argument type and
+   the size of the text buffer (regenerated from Compiler.cpp). *)
+Theorem C03_case_label_value :
+  forall v, 0 <= v < 2 ^ 63 ->
+    case_pos case_member_bits case_cast_bits case_arg_bits v = v /\
+    case_neg case_member_bits case_cast_bits case_arg_bits v = - v.
+Proof. exact generated_case_label. Qed.
+Print Assumptions C03_case_label_value.
+
+(* The reference semantics (C03/Sem.v) is a partial function of the program alone: a result
+   obtained with some fuel is obtained with every larger fuel, and two runs with any two amounts
+   of fuel cannot disagree.  (Totality: run_program is a Coq function; None = no result.) *)
+Theorem C03_reference_result_does_not_depend_on_fuel :
+  forall p n m entry args r,
+    (n <= m)%nat -> run_program n p entry args = Some r -> run_program m p entry args = Some r.
+Proof. exact run_program_fuel_irrelevant. Qed.
+Print Assumptions C03_reference_result_does_not_depend_on_fuel.
+
+Theorem C03_reference_semantics_is_deterministic :
+  forall p n m entry args r1 r2,
+    run_program n p entry args = Some r1 -> run_program m p entry args = Some r2 -> r1 = r2.
+Proof. exact run_program_deterministic. Qed.
+Print Assumptions C03_reference_semantics_is_deterministic.
+
+(* Equivalent spellings by the rules: `x op= e` is `x = x op e` (for every evaluator state). *)
+Theorem C03_compound_assignment_is_the_expanded_assignment :
+  forall R o l e s, exec_body R (SCSet o l e) s = r_exec R (SSet l (EBin o (lval_expr l) e)) s.
+Proof. exact compound_is_expanded. Qed.
+Print Assumptions C03_compound_assignment_is_the_expanded_assignment.
+
+(* Compile-correctness of a small fragment (constant integer expressions: literals, unary minus
+   with its compile-time folding, ~, the 16 binary integer operators) for the compiler and VM
+   MODEL of C03/Compile.v over the generated operand tables: the emitted code leaves exactly the
+   value of the expression on the operand stack, above whatever was there. *)
+Theorem C03_constant_expression_code_computes_its_value :
+  forall e, lits_ok e = true ->
+    forall z st, aeval e = Some z -> vm_run (compile e) st = Some (z :: st).
+Proof. exact compile_correct. Qed.
+Print Assumptions C03_constant_expression_code_computes_its_value.
+
+(* and that value is the one the reference evaluator assigns to the same expression *)
+Theorem C03_constant_expression_value_is_the_reference_value :
+  forall p e z, aeval e = Some z ->
+    forall s, r_eval (ev p (adepth e)) (embed e) s = Some (VInt z, s).
+Proof. exact aeval_is_eval. Qed.
+Print Assumptions C03_constant_expression_value_is_the_reference_value.
+
+Example folded_code : compile (ABin OSub (ANeg (ANeg (ALit 70000))) (ANeg (ABin OAdd (ALit 1) (ALit 256)))) =
+  [IPush 70000; IPush 1; IPush 256; IBin OAdd; INeg; IBin OSub].
+Proof. vm_compute. reflexivity. Qed.
 
 (* non-vacuity: the boundary literals in both directions *)
 Example literal_256 : decode dec_table (encode enc_table enc_default 256) = Some 256.
